@@ -277,7 +277,59 @@ func (p *pair) eval(t time.Time, plain bool) (mm *mismatch, nontrivial bool) {
 	got := p.kit.Next(t)
 	inFlight.busySince.Store(0)
 	nontrivial = !ans.Found || ans.Unix != t.Unix()+1
-	return p.judge(t, ans, got, false), nontrivial
+	mm = p.judge(t, ans, got, false)
+	if mm != nil && strings.Contains(mm.Key, ";no-transition;") {
+		if tr, ok := p.farCulprit(t, ans); ok {
+			mm.Key = "zone=" + p.zi.name + ";transition=" + time.Unix(tr, 0).UTC().Format(time.RFC3339)
+		}
+	}
+	return mm, nontrivial
+}
+
+// farCulprit names the offset change behind a mismatch that has none within
+// 50 h of the start or of the answers (kit's search walks over month and day
+// starts, so the change that derails it can lie weeks before the start or
+// months before the answer). Every start in [t, want) has the same earliest
+// match; the latest of them from which kit still answers wrongly is found by
+// bisection, and the culprit is the latest offset change between 32 days
+// before and 50 h after that start.
+func (p *pair) farCulprit(t time.Time, ans cronref.Answer) (int64, bool) {
+	if !ans.Found {
+		return 0, false
+	}
+	fails := func(u int64) bool {
+		tt := time.Unix(u, 0).UTC()
+		if p.zi.fixed {
+			tt = tt.In(p.zi.z.Loc)
+		}
+		inFlight.p, inFlight.t, inFlight.ans = p, tt, ans
+		inFlight.busySince.Store(mono())
+		got := p.kit.Next(tt)
+		inFlight.busySince.Store(0)
+		return p.judge(tt, ans, got, false) != nil
+	}
+	lo, hi := t.Unix(), ans.Unix-1
+	if hi <= lo {
+		return 0, false
+	}
+	if fails(hi) {
+		lo = hi
+	} else {
+		for hi-lo > 1 {
+			mid := lo + (hi-lo)/2
+			if fails(mid) {
+				lo = mid
+			} else {
+				hi = mid
+			}
+		}
+	}
+	trs := p.zi.z.Transitions
+	i := sort.Search(len(trs), func(i int) bool { return trs[i] > lo+50*3600 })
+	if i == 0 || trs[i-1] < lo-32*86400 {
+		return 0, false
+	}
+	return trs[i-1], true
 }
 
 func (p *pair) judge(t time.Time, ans cronref.Answer, got time.Time, hung bool) *mismatch {
@@ -842,8 +894,11 @@ func run(r *enumx.Run, replay *enumx.ReplayCase) {
 		}
 		return n
 	}
+	phaseWall := map[string]float64{}
 	phase := func(desc string, reqs []unitReq) {
+		t0 := time.Now()
 		done := pl.run(reqs)
+		phaseWall[strings.SplitN(desc, " ", 2)[0]] = time.Since(t0).Seconds()
 		if done < len(reqs) {
 			r.Incomplete(fmt.Sprintf("%s: %d of %d (schedule, zone) units", desc, done, len(reqs)))
 		} else {
@@ -904,6 +959,7 @@ func run(r *enumx.Run, replay *enumx.ReplayCase) {
 	r.Set("calls_that_did_not_return", pl.hangs)
 	r.Set("starts_not_tried_after_a_call_that_did_not_return", pl.skipped)
 	r.Set("worker_restarts", pl.restarts)
+	r.Set("phase_wall_s", phaseWall)
 	r.Set("time_limit_alarms_not_confirmed_(retried)", pl.falseAlarms)
 	r.Sample(map[string]any{"zone": "America/New_York", "spec": "0 30 2 * * *", "start": "2012-03-11T05:00:00Z", "reference": "2012-03-12T02:30:00-04:00 (02:30 does not occur on the spring-forward day)"})
 	r.Sample(map[string]any{"zone": "Australia/Lord_Howe", "spec": "0 45 1 * * *", "start": "window around a 30-minute shift", "reference": "first of the two 01:45 readings on the fall-back day"})
